@@ -344,3 +344,29 @@ func init() {
 	}
 	intrinsics["internal/abi.NoEscape"] = func(e *Engine, _ *frame, _ token.Pos, a []Value) Value { return a[0] }
 }
+
+// internal/bytealg.Compare (assembly): lexicographic comparison as a term.
+func init() {
+	cmp := func(e *Engine, _ *frame, _ token.Pos, a []Value) Value {
+		x, y := e.sliceElems(a[0]), e.sliceElems(a[1])
+		n := len(x)
+		if len(y) < n {
+			n = len(y)
+		}
+		var tail uint64
+		switch {
+		case len(x) < len(y):
+			tail = ^uint64(0)
+		case len(x) > len(y):
+			tail = 1
+		}
+		res := term.Const(64, tail)
+		for i := n - 1; i >= 0; i-- {
+			xi, yi := asT(x[i]), asT(y[i])
+			res = term.Ite(term.Eq(xi, yi), res, term.Ite(term.Ult(xi, yi), term.Const(64, ^uint64(0)), term.Const(64, 1)))
+		}
+		return res
+	}
+	intrinsics["internal/bytealg.Compare"] = cmp
+	intrinsics["internal/bytealg.CompareString"] = cmp
+}
